@@ -1062,7 +1062,7 @@ def _cmp_setlit(impl, out, tol_of):
 
 # values as python writes them: numbers (a leading-zero integer is refused by python, `+` is a sign), lists and tuples,
 # nested, with blanks, trailing comma, empty; refused: ragged, unbalanced, missing comma
-PY_VALUE_LITS = ['1, 2', '1,', '1, 2,', '[1], [2]', '(1, 2), 3', ',', '1) (2', '010', '007', '00', '+2', '+.5', '-0', '00.5', '01e1', '-08', '1.5E+2', '[]', '()', '[1, 2', '[1,,2]',
+PY_VALUE_LITS = ['1,\n2', '[1,\n2]', '(1,\r2)', '1\n2', '[1]\n[2]', '1, 2', '1,', '1, 2,', '[1], [2]', '(1, 2), 3', ',', '1) (2', '010', '007', '00', '+2', '+.5', '-0', '00.5', '01e1', '-08', '1.5E+2', '[]', '()', '[1, 2', '[1,,2]',
                  '[[1, 2], [3]]', '(1, 2]', '[1 2]', '((1, 2), (3, 4))', '[010]', '[1, [2]]', '[1, 2,]', '(3)', '((3))',
                  '[(1.5)]', '[+1, -2]', '[[]]', '[[], []]', '(,)', '[,1]', '1, 2', '[1](2)', '+-2', '--2', '[ ]', '( 2 , )']
 VALUE_LITS = ['1.124', '2', '10', '0.5', '-3', '1e3', '2.5e-3', '-1.5E2', '7.', '.5', '12345.678', '0', '1e-21', '100',
